@@ -60,8 +60,11 @@ func quotes(ss []string) string {
 }
 
 func sortedQuotes(ss []string) string {
-	sort.Strings(ss)
-	return quotes(ss)
+	// Do not sort the given slice in place. It may be shared (e.g. AllWebhookTypes, configuration variables)
+	sorted := make([]string, len(ss))
+	copy(sorted, ss)
+	sort.Strings(sorted)
+	return quotes(sorted)
 }
 
 func quotesAll(sss ...[]string) string {
